@@ -1,4 +1,8 @@
 RULES = [
+    ("C10-F4", "two latches on one signal type sharing a reset comparison: with optimisation the comparison is shared and "
+               "its output wire joins both latches' input networks (cross-talk, C05-F2); --no-optimize keeps two "
+               "deciders and behaves differently",
+     lambda c, d: c["tag"].startswith("c05:") and "chained/signal-L" in c["tag"]),
     ("C10-F3", "a constant result folded by the IR optimiser (Signal r = !0;) is emitted as an unnamed '<op>_N_folded' "
                "constant with optimisation and as the named result without (same root cause as C01-F4)",
      lambda c, d: c["tag"] == "S2" and not c["inputs"]),
